@@ -58,3 +58,52 @@ Proof.
   split; [intro H; discriminate H|]. split; [intro H; discriminate H|].
   intros [H _]. vm_compute in H. discriminate H.
 Qed.
+
+(* ------------------------------------------------------------------ second pass *)
+From RV Require Import Gen.LeafFit Gen.LeafRender Proofs.Render.
+
+(* the clip of a primitive result and feTile's tile are taken relative to the region: frame-independent *)
+Lemma translate_checked_frame_invariant : forall r o ex ey,
+  translate_checked (ishift ex ey r) (ishift ex ey o) = translate_checked r o.
+Proof.
+  intros. unfold translate_checked, ishift; cbn [ix iy iw ih].
+  replace (ix r + ex - (ix o + ex))%Z with (ix r - ix o)%Z by lia.
+  replace (iy r + ey - (iy o + ey))%Z with (iy r - iy o)%Z by lia. reflexivity.
+Qed.
+Lemma tile_origin_frame_invariant : forall input_region region ex ey,
+  tile_origin (ishift ex ey input_region) (ishift ex ey region) = tile_origin input_region region.
+Proof. intros. unfold tile_origin. rewrite translate_checked_frame_invariant. reflexivity. Qed.
+
+(* feImage is placed by the layer-absolute sub-region: its device position follows the root translation whatever the frame does *)
+Lemma feimage_device_pos_equivariant : forall ox oy dx dy ex ey sub region,
+  feimage_device_pos (ox + dx - ex) (oy + dy - ey) (ishift ex ey sub) (ishift ex ey region) =
+  ((fst (feimage_device_pos ox oy sub region) + dx)%Z, (snd (feimage_device_pos ox oy sub region) + dy)%Z).
+Proof.
+  intros. unfold feimage_device_pos, feimage_pos, filter_canvas_draw_pos, ishift; cbn [fst snd ix iy iw ih].
+  f_equal; lia.
+Qed.
+
+(* feOffset / feDropShadow offsets see the linear part only *)
+Lemma offset_of_frame_invariant : forall hyp dx dy t ex ey, offset_of hyp dx dy (ts_shift ex ey t) = offset_of hyp dx dy t.
+Proof. intros. reflexivity. Qed.
+
+(* pattern phase: every point of tile space lands (dx, dy) further on the device *)
+Lemma pattern_phase_equivariant : forall T pattern_ts rx ry sx sy dx dy x y,
+  map_x (pattern_device_ts (ts_shift dx dy T) pattern_ts rx ry sx sy) x y
+    == map_x (pattern_device_ts T pattern_ts rx ry sx sy) x y + inject_Z dx /\
+  map_y (pattern_device_ts (ts_shift dx dy T) pattern_ts rx ry sx sy) x y
+    == map_y (pattern_device_ts T pattern_ts rx ry sx sy) x y + inject_Z dy.
+Proof.
+  intros. unfold pattern_device_ts, ts_shift, ts_concat, from_row, map_x, map_y;
+  cbn [t_sx t_ky t_kx t_sy t_tx t_ty]. split; ring.
+Qed.
+
+(* primitive sub-regions (and the region): to_int_rect of the device box, exactly equivariant in the Q idealisation
+   while no i32 cast saturates.  In f32 the box edges x + w are rounded, so an edge within an ulp of an integer can
+   floor / ceil differently after the move: the registered class filter-region-ulp *)
+Lemma subregion_equivariant : forall b ex ey, small_bbox b -> small_bbox (qshift ex ey b) ->
+  filter_to_int_rect (qshift ex ey b) = option_map (ishift ex ey) (filter_to_int_rect b).
+Proof.
+  intros b ex ey S S'. rewrite (filter_to_int_rect_small _ S), (filter_to_int_rect_small _ S'). cbn [option_map].
+  rewrite raw_box_shift. reflexivity.
+Qed.
